@@ -367,6 +367,20 @@ def gen_program(g, prof):
             else:
                 body = [first] + caller
             main = [["group", gg, body]] + main
+        elif which == "native_cancel_at_final_checkpoint":
+            # the only child of G fails; G's host (itself a child, so that it can be cancelled natively) is cancelled
+            # natively in the cycles in which G's __aexit__ runs its final checkpoint
+            go, gg, ch, c1 = new("g"), new("g"), new("c"), new("c")
+            st["names"] += [go, gg, ch, c1]
+            st["groups"] += [go, gg]
+            st["children"] += [ch, c1]
+            k = g.int(1, 3)
+            ext += [[k + g.int(3, 8), "native", ch]]
+            main = [["group", go, [
+                ["spawn", go, ch, "soon", [["group", gg, [["spawn", gg, c1, "soon", [["yield", k], ["raise", 79]]],
+                                                          g.choice([["forever"], ["sleep", 5], ["wait", "e0"]])]],
+                                           ["yield", 1]]],
+                g.choice([["yield", g.int(1, 3)], ["wait", "e1"]])]]] + main
         elif which == "sibling_double_cancel":
             a, b, gg, c1, c2 = new("s"), new("s"), new("g"), new("c"), new("c")
             st["names"] += [a, b, gg, c1, c2]
